@@ -44,6 +44,16 @@ Definition edge_lng (aLL bLL : s2_LatLng) : s1_Interval :=
 (** which adjustments the generic branch made: (interior test passed, Hi raised, Lo lowered) *)
 Definition lat_flags := (bool * bool * bool)%type.
 
+(** Argument of math.Asin in the latitude budget.  Since /repo aed5357 it is rounded up by
+    4 dblEpsilon and clamped to 1: math.Min(1, (1+4*dblEpsilon)*0.5*|a-b|*sin(maxLat)); the
+    constant (1+4*dblEpsilon)*0.5 = 0.5 + 2^-51 is folded by the Go compiler. *)
+Definition c_half_up : float := (0x1.0000000000004p-01)%float.
+Definition asin_arg (norm sinMaxLat : float) : float :=
+  go_fmin 1 (PrimFloat.mul (PrimFloat.mul c_half_up norm) sinMaxLat).
+(** the pre-fix expression 0.5*|a-b|*sin(maxLat) (kept for the refutation witness) *)
+Definition asin_arg_old (norm sinMaxLat : float) : float :=
+  PrimFloat.mul (PrimFloat.mul 0.5 norm) sinMaxLat.
+
 (** latitude range spanned by AB in the generic branch (nNorm >= c_minNorm) *)
 Definition edge_lat_flags (a b : s2_Point) (aLL bLL : s2_LatLng) (n : r3_Vector) (nNorm : float)
   : r1_Interval * lat_flags :=
@@ -62,8 +72,8 @@ Definition edge_lat_flags (a b : s2_Point) (aLL bLL : s2_LatLng) (n : r3_Vector)
                                   (PrimFloat.abs (r3_Vector_Z n))) c_3eps)
        c_pi_2 in
     let latBudget := PrimFloat.mul 2
-       (math_Asin (PrimFloat.mul (PrimFloat.mul 0.5 (r3_Vector_Norm (r3_Vector_Sub (s2_Point_Vector a) (s2_Point_Vector b))))
-                                 (math_Sin maxLat))) in
+       (math_Asin (asin_arg (r3_Vector_Norm (r3_Vector_Sub (s2_Point_Vector a) (s2_Point_Vector b)))
+                            (math_Sin maxLat))) in
     let maxDelta := PrimFloat.add (PrimFloat.mul 0.5 (PrimFloat.sub latBudget (r1_Interval_Length latAB))) c_eps in
     let raise := PrimFloat.leb mA mError && PrimFloat.leb (PrimFloat.opp mError) mB in
     let latAB1 := if raise
@@ -117,6 +127,71 @@ Fixpoint bounder_trace (r : bounder) (pts : list s2_Point) : list bounder :=
   | [] => []
   | p :: t => let r' := add_point r p in r' :: bounder_trace r' t
   end.
+
+(** ---- the same definitions with the pre-fix Asin argument (before /repo aed5357) ---- *)
+(** latitude range spanned by AB in the generic branch (nNorm >= c_minNorm) *)
+Definition edge_lat_flags_old (a b : s2_Point) (aLL bLL : s2_LatLng) (n : r3_Vector) (nNorm : float)
+  : r1_Interval * lat_flags :=
+  let latAB := r1_Interval_AddPoint (r1_IntervalFromPoint (s1_Angle_Radians (s2_LatLng_Lat aLL)))
+                                    (s1_Angle_Radians (s2_LatLng_Lat bLL)) in
+  let m := r3_Vector_Cross n (mk_r3_Vector 0 0 1) in
+  let mA := r3_Vector_Dot m (s2_Point_Vector a) in
+  let mB := r3_Vector_Dot m (s2_Point_Vector b) in
+  let mError := PrimFloat.add (PrimFloat.mul c_mErrMul nNorm) c_mErrAdd in
+  if PrimFloat.ltb (PrimFloat.mul mA mB) 0 || PrimFloat.leb (PrimFloat.abs mA) mError
+     || PrimFloat.leb (PrimFloat.abs mB) mError
+  then
+    let maxLat := go_fmin
+       (PrimFloat.add (math_Atan2 (PrimFloat.sqrt (PrimFloat.add (PrimFloat.mul (r3_Vector_X n) (r3_Vector_X n))
+                                                                  (PrimFloat.mul (r3_Vector_Y n) (r3_Vector_Y n))))
+                                  (PrimFloat.abs (r3_Vector_Z n))) c_3eps)
+       c_pi_2 in
+    let latBudget := PrimFloat.mul 2
+       (math_Asin (asin_arg_old (r3_Vector_Norm (r3_Vector_Sub (s2_Point_Vector a) (s2_Point_Vector b)))
+                            (math_Sin maxLat))) in
+    let maxDelta := PrimFloat.add (PrimFloat.mul 0.5 (PrimFloat.sub latBudget (r1_Interval_Length latAB))) c_eps in
+    let raise := PrimFloat.leb mA mError && PrimFloat.leb (PrimFloat.opp mError) mB in
+    let latAB1 := if raise
+                  then set_r1_Interval_Hi latAB (go_fmin maxLat (PrimFloat.add (r1_Interval_Hi latAB) maxDelta))
+                  else latAB in
+    let lower := PrimFloat.leb mB mError && PrimFloat.leb (PrimFloat.opp mError) mA in
+    let latAB2 := if lower
+                  then set_r1_Interval_Lo latAB1 (go_fmax (PrimFloat.opp maxLat) (PrimFloat.sub (r1_Interval_Lo latAB1) maxDelta))
+                  else latAB1 in
+    (latAB2, (true, raise, lower))
+  else (latAB, (false, false, false)).
+
+Definition edge_lat_old a b aLL bLL n nNorm : r1_Interval := fst (edge_lat_flags_old a b aLL bLL n nNorm).
+
+(** The rectangle AddPoint unions into the bound for the edge (a,b), and a branch tag:
+    0 = nearly antipodal (bound := Full), 1 = nearly identical, 2 = generic. *)
+Definition edge_rect_tag_old (a b : s2_Point) (aLL bLL : s2_LatLng) : s2_Rect * Z * lat_flags :=
+  let n := edge_normal a b in
+  let nNorm := r3_Vector_Norm n in
+  if PrimFloat.ltb nNorm c_minNorm then
+    if PrimFloat.ltb (r3_Vector_Dot (s2_Point_Vector a) (s2_Point_Vector b)) 0
+    then (s2_FullRect, 0%Z, (false, false, false))
+    else (s2_Rect_AddPoint (s2_RectFromLatLng aLL) bLL, 1%Z, (false, false, false))
+  else
+    let '(lat, fl) := edge_lat_flags_old a b aLL bLL n nNorm in
+    (mk_s2_Rect lat (edge_lng aLL bLL), 2%Z, fl).
+
+Definition edge_rect_old a b aLL bLL : s2_Rect := fst (fst (edge_rect_tag_old a b aLL bLL)).
+Definition edge_tag_old a b aLL bLL : Z := snd (fst (edge_rect_tag_old a b aLL bLL)).
+
+(** RectBounder.AddPoint before aed5357 *)
+Definition add_point_old (r : bounder) (b : s2_Point) : bounder :=
+  let bLL := s2_LatLngFromPoint b in
+  if s2_Rect_IsEmpty (bd_bound r) then
+    mk_bounder b bLL (s2_Rect_AddPoint (bd_bound r) bLL)
+  else
+    let e := edge_rect_old (bd_a r) b (bd_aLL r) bLL in
+    if (edge_tag_old (bd_a r) b (bd_aLL r) bLL =? 0)%Z
+    then mk_bounder b bLL s2_FullRect
+    else mk_bounder b bLL (s2_Rect_Union (bd_bound r) e).
+
+
+Definition bounder_run_old (pts : list s2_Point) : bounder := fold_left add_point_old pts new_bounder.
 
 (** * s2/loop.go : initBound pole logic and Invert's shortcut *)
 
